@@ -83,6 +83,83 @@ Theorem c04_realtime_order_fixed_run :
          trace s = [EInv 1; EInv 3; ERet 1; EInv 5; ERet 3; EApp 3; EApp 1; EApp 5; ERet 5].
 Proof. exact QueueLtsProofs.realtime_order_fixed_run. Qed.
 
+(* when a barrier/clear acknowledgement exists, every write reserved before that barrier has been applied (Sync and Clear fence every SetAsync that returned before them) *)
+Theorem c04_sync_fence :
+  forall (f : bool) (n B : Z) (scripts : list (list QueueLts.op)) (s : gstate) (a : Z),
+         2 <= n ->
+         wf_scripts scripts ->
+         QueueLtsProofs.reachable (init_scripts f n B scripts) s ->
+         In a (ackTok s) ->
+         exists k : nat,
+           (k < length (qlog s))%nat /\
+           (nth k (resv s) (Write 0) = Barrier a \/ nth k (resv s) (Write 0) = ClearCmd a) /\
+           (forall (j : nat) (id : Z),
+            (j < k)%nat -> nth j (resv s) (Write 0) = Write id -> In id (applied s)).
+Proof. exact QueueLtsProofs.sync_fence. Qed.
+
+(* whenever a command is published at tail, the token is free and the cache open, a wake token is pending or a worker is in its drain/re-arm section or the publishing producer is about to signal: an accepted SetAsync is never stranded *)
+Theorem c04_no_lost_wake :
+  forall (f : bool) (n B : Z) (scripts : list (list QueueLts.op)) (s : gstate),
+         2 <= n ->
+         1 <= B ->
+         wf_scripts scripts ->
+         QueueLtsProofs.reachable (init_scripts f n B scripts) s ->
+         cseq (cell_at s (tail s)) = tail s + 1 ->
+         drainMu s = None ->
+         closeCh s = false ->
+         wakeTok s = true \/
+         (exists (tid : nat) (th : QueueLts.thread),
+            QueueLtsProofs.thr s tid th /\ cur th = Some OWorker /\ wsetN (pc th) = true) \/
+         (exists (tid : nat) (th : QueueLts.thread),
+            QueueLtsProofs.thr s tid th /\ pc th = P106 /\ epos th = tail s).
+Proof. exact QueueLtsProofs.no_lost_wake. Qed.
+
+(* in that situation some responsible thread has an enabled step (visible within bounded time with no further calls, given a fair scheduler) *)
+Theorem c04_progress :
+  forall (f : bool) (n B : Z) (scripts : list (list QueueLts.op)) (s : gstate) (c : bool),
+         2 <= n ->
+         1 <= B ->
+         wf_scripts scripts ->
+         QueueLtsProofs.reachable (init_scripts f n B scripts) s ->
+         ready s ->
+         closeCh s = false ->
+         (exists (tid : nat) (th : QueueLts.thread),
+            QueueLtsProofs.thr s tid th /\ cur th = Some OWorker) -> can_step c s.
+Proof. exact QueueLtsProofs.progress. Qed.
+
+(* the repaired syncMutate's wait (yield 333) only waits for producers between reserve and publish, whose steps are always enabled *)
+Theorem c04_set_wait_bounded :
+  forall (f : bool) (n B : Z) (scripts : list (list QueueLts.op)) 
+           (s : gstate) (tid : nat) (th : QueueLts.thread),
+         2 <= n ->
+         1 <= B ->
+         wf_scripts scripts ->
+         QueueLtsProofs.reachable (init_scripts f n B scripts) s ->
+         QueueLtsProofs.thr s tid th ->
+         pc th = P333 ->
+         tail s < starget th /\
+         starget th <= head s /\
+         (published s (tail s) \/
+          (exists (t' : nat) (th' : QueueLts.thread),
+             QueueLtsProofs.thr s t' th' /\
+             ownpc (pc th') = true /\ epos th' = tail s /\ (forall c : bool, lstepc c s t' <> None))).
+Proof. exact QueueLtsProofs.set_wait_bounded. Qed.
+
+(* non-vacuity: ring of 2, producer blocked at the full ring, released by the space token, laps the ring without overwriting *)
+Theorem c04_backpressure_example :
+  let r := run_sched_obs (init_scripts true 2 1 ex_scripts) ex_sched_backpressure in
+         snd r =
+         [[101; 0; 0]; [102; 0; 0]; [103; 0; 0]; [104; 0; 0]; [105; 0; 0]; [
+          106; 0; 0]; [0; 0; 0]; [101; 0; 0]; [102; 0; 0]; [103; 0; 0]; [
+          104; 0; 0]; [105; 0; 0]; [106; 0; 0]; [0; 0; 0]; [101; 0; 0]; [
+          102; 0; 0]; [108; 0; 0]; [-2]; [301; 0; 0]; [302; 0; 0]; [311; 0; 0]; [
+          121; 0; 0]; [122; 0; 0]; [123; 0; 0]; [124; 0; 0]; [125; 0; 0]; [
+          126; 0; 0]; [312; 0; 0]; [313; 0; 0]; [121; 0; 0]; [101; 0; 0]; [
+          102; 0; 0]; [103; 0; 0]; [104; 0; 0]; [105; 0; 0]; [106; 0; 0]; [
+          0; 0; 0]] /\
+         head (fst r) = 3 /\ tail (fst r) = 1 /\ applied (fst r) = [1] /\ overwrote (fst r) = false.
+Proof. exact QueueLtsProofs.backpressure_and_lap. Qed.
+
 (* functional level: a SetAsync batch followed by Sync equals the same Sets applied synchronously *)
 Theorem c04_async_then_sync_is_sync :
   forall (shard_of : Z -> Z) (reqs : list req) (c : CacheModel.cache),
@@ -114,5 +191,10 @@ Print Assumptions c04_realtime_order.
 Print Assumptions c04_realtime_order_trace.
 Print Assumptions c04_realtime_order_old_code_refuted.
 Print Assumptions c04_realtime_order_fixed_run.
+Print Assumptions c04_sync_fence.
+Print Assumptions c04_no_lost_wake.
+Print Assumptions c04_progress.
+Print Assumptions c04_set_wait_bounded.
+Print Assumptions c04_backpressure_example.
 Print Assumptions c04_async_then_sync_is_sync.
 Print Assumptions c04_locked_sections_atomic.
